@@ -10,6 +10,40 @@ use serde::{Deserialize, Serialize};
 use serde_json::Value;
 use std::sync::{Arc, Mutex};
 
+type BHook = Arc<Mutex<Option<crate::props::c06::AssertSend<Box<dyn FnMut()>>>>>;
+
+/// probe that can run a one-shot hook from inside its next callback
+#[derive(Clone)]
+pub struct BProbe {
+  log: Arc<ProbeLog>,
+  hook: BHook,
+}
+impl BProbe {
+  fn new() -> Self {
+    BProbe { log: ProbeLog::new(false), hook: Arc::new(Mutex::new(None)) }
+  }
+}
+impl Observer<i64, E> for BProbe {
+  fn next(&mut self, v: i64) {
+    Observer::<i64, E>::next(&mut Probe(self.log.clone()), v);
+    let h = self.hook.lock().unwrap().take();
+    if let Some(mut h) = h {
+      (h.0)();
+    }
+  }
+  fn error(self, e: E) {
+    Observer::<i64, E>::error(Probe(self.log.clone()), e)
+  }
+  fn complete(self) {
+    Observer::<i64, E>::complete(Probe(self.log.clone()))
+  }
+  fn is_finished(&self) -> bool {
+    false
+  }
+}
+
+type Store = Arc<Mutex<Vec<(usize, crate::props::c06::AssertSend<Box<dyn crate::props::c06::SubHandle>>)>>>;
+
 type BLocal = BehaviorSubject<i64, Subject<'static, i64, E>>;
 type BShared = BehaviorSubject<i64, SubjectThreads<i64, E>>;
 
@@ -23,6 +57,9 @@ pub enum Op {
   Peek,
   Complete,
   Error,
+  /// arm subscriber k: inside its next callback it peeks and subscribes a
+  /// fresh subscriber (who must be handed the item being delivered)
+  ArmInside(usize),
 }
 
 #[derive(Clone, Debug, Serialize, Deserialize)]
@@ -42,7 +79,9 @@ trait BDriver {
   fn next(&mut self, via: usize, v: i64);
   fn next_by(&mut self, via: usize, add: i64);
   fn clone_handle(&mut self, via: usize);
-  fn subscribe(&mut self, via: usize, p: Probe) -> Box<dyn crate::props::c06::SubHandle>;
+  fn subscribe(&mut self, via: usize, p: BProbe) -> Box<dyn crate::props::c06::SubHandle>;
+  /// closure that peeks (into `peeked`) and subscribes `p` to a clone
+  fn inside_fn(&self, via: usize, p: BProbe, k: usize, store: Store, peeked: Arc<Mutex<Vec<i64>>>) -> Box<dyn FnMut()>;
   fn peek(&self, via: usize) -> i64;
   fn complete(&mut self, via: usize);
   fn error(&mut self, via: usize, e: E);
@@ -74,9 +113,21 @@ macro_rules! bdriver {
         let c = self.hs[i].as_ref().unwrap().clone();
         self.hs.push(Some(c));
       }
-      fn subscribe(&mut self, via: usize, p: Probe) -> Box<dyn crate::props::c06::SubHandle> {
+      fn subscribe(&mut self, via: usize, p: BProbe) -> Box<dyn crate::props::c06::SubHandle> {
         let i = self.pick(via);
         Box::new(self.hs[i].as_ref().unwrap().clone().actual_subscribe(p))
+      }
+      fn inside_fn(&self, via: usize, p: BProbe, k: usize, store: Store, peeked: Arc<Mutex<Vec<i64>>>) -> Box<dyn FnMut()> {
+        let i = self.pick(via);
+        let h = self.hs[i].as_ref().unwrap().clone();
+        let mut slot = Some((h, p));
+        Box::new(move || {
+          if let Some((h, p)) = slot.take() {
+            peeked.lock().unwrap().push(Behavior::<i64, E>::peek(&h));
+            let u = h.actual_subscribe(p);
+            store.lock().unwrap().push((k, crate::props::c06::AssertSend(Box::new(u))));
+          }
+        })
       }
       fn peek(&self, via: usize) -> i64 {
         let i = self.pick(via);
@@ -117,7 +168,7 @@ impl Scenario for C12Des {
     let mut subs = 0;
     for i in 0..len {
       let late = i + 3 >= len;
-      let op = match rng.weighted(&[6, 3, 2, 5, 2, 4, if late { 2 } else { 0 }, if late { 2 } else { 0 }]) {
+      let op = match rng.weighted(&[6, 3, 2, 5, 2, 4, if late { 2 } else { 0 }, if late { 2 } else { 0 }, 2]) {
         0 => Op::Next,
         1 => Op::NextBy,
         2 => Op::CloneHandle,
@@ -128,7 +179,11 @@ impl Scenario for C12Des {
         4 => Op::UnsubOne(rng.below(subs.max(1))),
         5 => Op::Peek,
         6 => Op::Complete,
-        _ => Op::Error,
+        7 => Op::Error,
+        _ => {
+          subs += 1;
+          Op::ArmInside(rng.below(subs.max(1)))
+        }
       };
       steps.push(Step { op, via: rng.below(3) });
     }
@@ -148,7 +203,13 @@ impl Scenario for C12Des {
     let mut finished = false;
     let mut model: Vec<Vec<Ev>> = vec![];
     let mut logs: Vec<Arc<ProbeLog>> = vec![];
+    let mut probes: Vec<BProbe> = vec![];
     let mut handles: Vec<(usize, Box<dyn crate::props::c06::SubHandle>)> = vec![];
+    let store: Store = Arc::new(Mutex::new(Vec::new()));
+    let peeked: Arc<Mutex<Vec<i64>>> = Arc::new(Mutex::new(Vec::new()));
+    // (trigger subscriber, subscriber that joins from inside its callback)
+    let mut armed: Vec<(usize, usize)> = Vec::new();
+    let mut inside_joins = 0u64;
     let mut violation = None;
     let mut trace = String::new();
     let mut n = 100i64;
@@ -174,16 +235,38 @@ impl Scenario for C12Des {
             for k in &live {
               model[*k].push(Ev::Next(Val::I(v)));
             }
+            // subscribers joining from inside a callback of this emission are handed
+            // the item being delivered as their current value and join for later ones
+            let snapshot = live.clone();
+            let mut fired = Vec::new();
+            armed.retain(|(trig, newk)| {
+              if snapshot.contains(trig) {
+                fired.push(*newk);
+                false
+              } else {
+                true
+              }
+            });
+            for nk in fired {
+              model[nk].push(Ev::Next(Val::I(v)));
+              live.push(nk);
+              inside_joins += 1;
+              let pk = peeked.lock().unwrap().pop();
+              if pk != Some(v) && violation.is_none() {
+                violation = Some(Violation { rule: "c12.peek".into(), site: site.clone(), detail: format!("`{}` next({}): peek() from inside a subscriber callback during the delivery returned {:?}", trace.trim(), v, pk) });
+              }
+            }
           }
           trace.push_str(&format!("next({}) ", v));
         }
         Op::CloneHandle => d.clone_handle(st.via),
         Op::Subscribe => {
           let k = logs.len();
-          let l = ProbeLog::new(false);
-          logs.push(l.clone());
+          let bp = BProbe::new();
+          logs.push(bp.log.clone());
+          probes.push(bp.clone());
           model.push(vec![Ev::Next(Val::I(value))]);
-          let h = d.subscribe(st.via, Probe(l));
+          let h = d.subscribe(st.via, bp);
           handles.push((k, h));
           if !finished {
             live.push(k);
@@ -197,7 +280,38 @@ impl Scenario for C12Des {
             let (_, h) = handles.remove(pos);
             h.unsub();
             live.retain(|x| x != k);
+            armed.retain(|(t, _)| t != k);
+            if let Some(p) = probes.get(*k) {
+              p.hook.lock().unwrap().take();
+            }
             trace.push_str(&format!("unsub{} ", k));
+          } else {
+            let pos = store.lock().unwrap().iter().position(|(id, _)| id == k);
+            if let Some(pos) = pos {
+              let (_, h) = store.lock().unwrap().remove(pos);
+              h.0.unsub();
+              live.retain(|x| x != k);
+              trace.push_str(&format!("unsub{} ", k));
+            }
+          }
+        }
+        Op::ArmInside(k) => {
+          if finished || armed.iter().any(|(t, _)| t == k) {
+            continue;
+          }
+          if let Some(trigger) = probes.get(*k).cloned() {
+            if !live.contains(k) {
+              continue;
+            }
+            let nk = logs.len();
+            let bp = BProbe::new();
+            logs.push(bp.log.clone());
+            probes.push(bp.clone());
+            model.push(vec![]);
+            let f = d.inside_fn(st.via, bp, nk, store.clone(), peeked.clone());
+            *trigger.hook.lock().unwrap() = Some(crate::props::c06::AssertSend(f));
+            armed.push((*k, nk));
+            trace.push_str(&format!("arm{}→{} ", k, nk));
           }
         }
         Op::Peek => {
@@ -247,6 +361,10 @@ impl Scenario for C12Des {
       h = hash_mix(h, hash_str(&fmt_trace(&l.events())));
     }
     handles.clear();
+    store.lock().unwrap().clear();
+    for p in &probes {
+      p.hook.lock().unwrap().take();
+    }
     drop(d);
     drop(w);
     Ok(Outcome {
@@ -255,7 +373,7 @@ impl Scenario for C12Des {
       nontrivial: logs.len() >= 1 && case.steps.len() >= 3,
       sim_ns: 0,
       steps: case.steps.len() as u64,
-      faults: vec![("op_after_terminal", post_terminal)],
+      faults: vec![("op_after_terminal", post_terminal), ("peek_and_subscribe_from_inside_a_callback", inside_joins)],
       reach: vec![],
       resolved: None,
       sample: format!("{} init={}: {} => {}", site, case.init, trace.trim(), logs.iter().enumerate().map(|(k, l)| format!("s{}=[{}]", k, fmt_trace(&l.events()))).collect::<Vec<_>>().join(" ")),
